@@ -6,8 +6,10 @@ jpv-impl: the model side of the T3 channels. One request per line:
   (ID calls ACC PATH DOC)  → (ID c…) the user-function calls, in order
   (ID vlist PATH DOC)      → (ID (vl n cells) …) lists returned by the top-level filter queries
   (ID writes ACC PATH DOC) → (ID n) number of writes to lists that are not fresh
+  (ID den ACC PATH DOC)    → (ID ok v…) | (ID err)   the tree-level denotation TSem.run of the built chain
 -/
 import JPV.Dump
+import JPV.TSem
 import JPV.Registry
 open JPV JPV.Sexp
 
@@ -32,6 +34,10 @@ def answer (line : String) : String :=
   | some (.list [id, .atom "writes", acc, p, d]) =>
     withCase id acc p d (fun ch d =>
       [ofNat ((Impl.run Registry.env ch d).2.writes.filter (· != .fresh)).length])
+  | some (.list [id, .atom "den", acc, p, d]) =>
+    withCase id acc p d (fun ch d => match TSem.run Registry.env ch d with
+      | some vs => .atom "ok" :: vs.map Val.toSexp
+      | none => [.atom "err"])
   | some (.list [id, .atom "tree", acc, p]) =>
     withCase id acc p (.atom "null") (fun ch _ => ch.map N.toSexp)
   | _ => "(? bad-line)"
